@@ -161,11 +161,14 @@ class Element:
 
 
 class Document:
-    __slots__ = ('root', 'utf8', 'extra_strings', 'pre_strings', 'meta')
+    __slots__ = ('root', 'utf8', 'extra_strings', 'pre_strings', 'meta', 'sorted_flag')
     _FIELDS = ('root', 'utf8', 'extra_strings', 'pre_strings')
 
-    def __init__(self, root, utf8=False, extra_strings=(), pre_strings=()):
+    def __init__(self, root, utf8=False, extra_strings=(), pre_strings=(), sorted_flag=False):
         self.root, self.utf8 = root, bool(utf8)
+        # sorted_flag: set ResStringPool SORTED_FLAG -- only honoured by build() when the pool it writes really is sorted
+        # (by UTF-16 code units), so that the flag never lies
+        self.sorted_flag = bool(sorted_flag)
         self.extra_strings, self.pre_strings = list(extra_strings), list(pre_strings)
         self.meta = {}              # generator notes; not serialised, not compared
 
@@ -318,7 +321,10 @@ def build(doc):
             out.extend(_node(RES_XML_END_NAMESPACE_TYPE, e.line, NO_ENTRY, struct.pack('<II', pool.ref(p), pool.ref(u))))
     emit(doc.root)
 
-    sp = string_pool(pool.strings, doc.utf8)
+    u16 = [x.encode('utf-16-be', 'surrogatepass') for x in pool.strings]
+    really_sorted = doc.sorted_flag and u16 == sorted(u16)
+    doc.meta['sorted_flag_set'] = really_sorted
+    sp = string_pool(pool.strings, doc.utf8, SORTED_FLAG if really_sorted else 0)
     rm = b''
     if pool.resids:
         rm = struct.pack('<HHI', RES_XML_RESOURCE_MAP_TYPE, 8, 8 + 4 * len(pool.resids)) + b''.join(
@@ -527,7 +533,7 @@ def to_json(doc):
                 'attrs': [[a.ns, a.name, a.type, a.data, a.raw, a.resid] for a in e.attrs],
                 'children': [el(c) if isinstance(c, Element) else c for c in e.children]}
     return {'utf8': doc.utf8, 'extra_strings': list(doc.extra_strings), 'pre_strings': list(doc.pre_strings),
-            'root': el(doc.root)}
+            'sorted_flag': doc.sorted_flag, 'root': el(doc.root)}
 
 
 def from_json(o):
@@ -535,7 +541,7 @@ def from_json(o):
         return Element(d['ns'], d['name'], [Attr(*a) for a in d['attrs']],
                        [el(c) if isinstance(c, dict) else c for c in d['children']],
                        nsdecls=[tuple(x) for x in d['nsdecls']], line=d.get('line', 1), comment=d.get('comment'))
-    return Document(el(o['root']), o['utf8'], o.get('extra_strings', ()), o.get('pre_strings', ()))
+    return Document(el(o['root']), o['utf8'], o.get('extra_strings', ()), o.get('pre_strings', ()), o.get('sorted_flag', False))
 
 
 # ---------------------------------------------------------------------------------------------------
@@ -781,7 +787,7 @@ def documents(max_depth=3, max_children=3, max_attrs=5, mixed=False, utf8=None, 
         root = element(1, [])
         extra = draw(st.lists(short_text, max_size=2)) if draw(st.integers(0, 3)) == 0 else []
         pre = draw(st.lists(short_text, max_size=2)) if draw(st.integers(0, 5)) == 0 else []
-        d = Document(root, utf8=is8, extra_strings=extra, pre_strings=pre)
+        d = Document(root, utf8=is8, extra_strings=extra, pre_strings=pre, sorted_flag=draw(st.booleans()))
         d.meta['dropped_rebind_keeping_uri'] = dropped[0]
         return d
     return doc()
